@@ -62,7 +62,14 @@ def putProps (base over : List (Bytes × Bytes)) : List (Bytes × Bytes) :=
 
 /-! ## Profile activation (`JdkVersionProfileActivator`, `OperatingSystemProfileActivator`) -/
 
-def natText (n : Nat) : Bytes := (Nat.toDigits 10 n).map fun c => c.toNat.toUInt8
+/-- decimal digits, most significant first (`fuel` = an upper bound on their number) -/
+def digits : Nat → Nat → Bytes → Bytes
+  | 0, _, acc => acc
+  | fuel + 1, n, acc =>
+    let acc := (48 + n % 10).toUInt8 :: acc
+    if n < 10 then acc else digits fuel (n / 10) acc
+
+def natText (n : Nat) : Bytes := digits (n + 1) n []
 
 /-- `11.0.8` -/
 def numsText : List Nat → Bytes
